@@ -1,7 +1,8 @@
 """NTAG21x tag model (password part of the NXP data sheets) for the C20 check.
 
 Pages of 4 octets; the last four pages are CFG0, CFG1, PWD, PACK|RFUI.  PWD
-and PACK read back as zero.  PWD_AUTH (1Bh) answers PACK when the four
+and PACK read back as zero.  Changes of the configuration pages take
+effect at the next activation.  PWD_AUTH (1Bh) answers PACK when the four
 password octets match, otherwise the 4-bit NAK 0h and the tag falls back to
 idle (the next command is lost until the reader senses again).  With AUTH0
 <= page the page is write protected (and read protected with PROT set) until
@@ -36,6 +37,18 @@ class NtagTag(object):
         self.authenticated = False
         self.idle = False
         self.auth_attempts = []
+        self.effective = bytes(self.mem[c:c + 16])       # configuration in force: latched at activation
+
+    def eff(self, i):
+        return self.effective[i]
+
+    @property
+    def pwd_in_force(self):
+        return bytes(self.effective[8:12])
+
+    @property
+    def pack_in_force(self):
+        return bytes(self.effective[12:14])
 
     @property
     def pwd(self):
@@ -46,13 +59,15 @@ class NtagTag(object):
         return bytes(self.mem[4 * self.cfg + 12:4 * self.cfg + 14])
 
     def protected(self, page, write):
-        auth0 = self.mem[4 * self.cfg + 3]
-        prot = self.mem[4 * self.cfg + 4] & 0x80
+        auth0 = self.effective[3]
+        prot = self.effective[4] & 0x80
         return page >= auth0 and not self.authenticated and (write or prot)
 
     def reactivate(self):
+        """RF reset and new selection: changes of the configuration pages become effective"""
         self.idle = False
         self.authenticated = False
+        self.effective = bytes(self.mem[4 * self.cfg:4 * self.cfg + 16])
 
     def command(self, cmd):
         cmd = bytes(cmd)
@@ -93,9 +108,9 @@ class NtagTag(object):
             return ACK
         if op == 0x1B and len(cmd) == 5:
             self.auth_attempts.append(cmd[1:5])
-            if cmd[1:5] == self.pwd:
+            if cmd[1:5] == self.pwd_in_force:
                 self.authenticated = True
-                return self.pack
+                return self.pack_in_force
             self.idle = True
             self.authenticated = False
             return NAK0
